@@ -123,8 +123,8 @@ class Contract:
     def havoc(self, st, mods):
         for a in mods:
             for comp, sort in HEAP_SORTS.items():
-                if comp in ("cls_of", "cdict"):
-                    continue
+                if comp in ("cls_of", "cdict", "gwit"):
+                    continue          # ghost state changes only through explicit ghost assignments in contracts
                 st.heap[comp] = z3.Store(st.heap[comp], a, fresh("hv_" + comp, sort.range()))
         na = fresh("alloc", I)
         st.assume(na >= st.alloc)
